@@ -62,9 +62,31 @@ Theorem C06_delivered_bytes_are_the_queued_bytes :
       = Some (po_mtype p, po_ack p, c, match po_frm p with [] => None | _ => Some (po_port p) end, po_frm p).
 Proof. exact downlink_is_read_by_the_reference_device. Qed.
 
+From Lospan Require Import Base.Outcome Spec.RefDevice Proof.AnswerProof Proof.DeliveryProof.
+(* Existence and content. Any accepted uplink (confirmed or not, with or without the ACK bit) of a device of a
+   registered application, at a valid data rate and a fresh receive time, when the queue - after that uplink's ACK
+   bookkeeping - has an unsent message m with payload: exactly one downlink leaves, addressed to the device, and a
+   conformant device holding the session keys reads from it: confirmed/unconfirmed as m asks, the pending ACK flag,
+   the stored downlink counter, m's port and the first frame-sized chunk of m's bytes. (m is the oldest unsent:
+   C06_oldest_first.) *)
+Theorem C06_oldest_message_is_delivered :
+  forall (E D : list N -> list N -> list N),
+    (forall k b, length (E k b) = 16%nat /\ bytes_ok (E k b) = true) ->
+    forall apps st f rx n now r m,
+      ds_row st = Some r -> fb_down st -> valid_datr rx -> sendable st -> stale r f = false ->
+      (forall x, In x (ds_inbox st) -> u_ts x <> rx_ts rx) -> has_app apps (d_appeui r) = true ->
+      (d_addr r < 4294967296)%N -> (d_fdn r < 65536)%N ->
+      l_get_next_unsent (booked st f now) = Some m -> m_data m <> [] ->
+      exists dl, downs (snd (l_uplink E D apps st f rx n now)) = [dl] /\ dl_eui dl = d_eui r /\
+        ref_on_downlink E (d_nwkskey r) (d_appskey r) (d_addr r) (dl_raw dl)
+        = Some ((if m_ack m then ConfirmedDataDown else UnconfirmedDataDown), ack_pending st f, d_fdn r, Some (m_port m),
+                chunk (r_datr (rx_radio rx)) (m_data m)).
+Proof. exact queued_message_is_transmitted. Qed.
+
 Print Assumptions C06_oldest_first.
 Print Assumptions C06_loaded_entry.
 Print Assumptions C06_one_frame_per_uplink.
 Print Assumptions C06_isolation.
 Print Assumptions C06_queue_after_uplink.
 Print Assumptions C06_delivered_bytes_are_the_queued_bytes.
+Print Assumptions C06_oldest_message_is_delivered.
